@@ -149,6 +149,21 @@ def run(rep, drv):
 				_, ca = call(nvm.newsvendor_discrete, float(hh), float(bb), demand_pmf=dict(pmf), base_stock_level=y)
 				if not near(ca, costs[ys.index(y)]):
 					errs.append('evaluation at y=%d: python %r, defining expectation %s' % (y, ca, costs[ys.index(y)])); break
+			# object life cycle: the SAME dict revised in place (two probabilities swapped, keys unchanged) and passed again is the revised distribution
+			ks_ = sorted(pmf)
+			if len(ks_) >= 2 and pmf[ks_[0]] != pmf[ks_[-1]]:
+				live = dict(pmf)
+				call(nvm.newsvendor_discrete, float(hh), float(bb), demand_pmf=live)
+				live[ks_[0]], live[ks_[-1]] = live[ks_[-1]], live[ks_[0]]
+				qs2 = [F(0)] * len(qs)
+				for d_, v_ in live.items():
+					qs2[d_] = F(v_)
+				mo2 = drv.call('nvdiscrete', pmf=frs(qs2), h=fr(hh), b=fr(bb), ys=ys)
+				costs2 = [unfr(v) for v in mo2['costs']]
+				S2, c2 = call(nvm.newsvendor_discrete, float(hh), float(bb), demand_pmf=live)
+				rep.count('discrete:pmf-dict-revised-in-place')
+				if not near(c2, costs2[ys.index(int(S2))]) or float(min(costs2)) < float(c2) - 1e-9 * max(1.0, abs(float(c2))):
+					errs.append('after the dict was revised in place: S*=%s reported cost %r; model cost of that level under the revised pmf %s, optimum %s' % (S2, c2, costs2[ys.index(int(S2))], min(costs2)))
 			if errs:
 				bad('newsvendor', 'discrete (lot demand): ' + '; '.join(errs[:3]), case)
 		except Exception as e:
